@@ -77,7 +77,7 @@ def arg_text(t, v, depth=0):
     if t == T.BYTES:
         return hx(v)
     if t == T.STR:
-        return v
+        return v if v != "" else "<empty>"        # the empty string has its own token (pStr)
     if t == T.SET:
         return ",".join(str(x) for x in sorted(v)) if v else "-"
     if t == T.LIST(T.INT):
@@ -280,6 +280,28 @@ class SuperStub(object):
         return self.obj
 
 
+class Tok(int):
+    """an object token: a parameter declared INT (the Lean side sees only the number) that the real code uses as an
+    object - it carries the attributes the spec binds under `<param>.attr`; everything else is a Dummy"""
+    def __getattr__(self, name):
+        if name.startswith("__"):
+            raise AttributeError(name)
+        return Dummy()
+
+
+def seed_param_roots(sp, pv, roots):
+    """parameters that are the root of a bind (`target.brty` with parameter `target`): an int becomes a Tok so that
+    make_self can hang the bound attributes on it; None stays None"""
+    bind_roots = {src.split(".")[0] for (src, _pn, _t) in sp.binds if "." in src and not T.is_odd_bind(src)}
+    for (pn, t), v in zip(sp.params, pv):
+        if pn in bind_roots and isinstance(v, int) and not isinstance(v, bool) and t in (T.INT, T.OPT(T.INT)):
+            roots[pn] = Tok(v)
+
+
+def param_values(sp, pv, roots):
+    return [roots[pn] if isinstance(roots.get(pn), Tok) else py_value(t, v) for (pn, t), v in zip(sp.params, pv)]
+
+
 def install_stubs(sp, obj, roots):
     for k, (text, (pname, atys, rty, mon)) in enumerate(sorted(sp.opaque.items())):
         parts = text.split(".")
@@ -409,7 +431,22 @@ def _real_callable(sp, mod, path):
             return run_setter
         if isinstance(raw, staticmethod) or cls is None:
             fn = raw.__func__ if isinstance(raw, staticmethod) else raw
-            return lambda pv, bv: fn(*[py_value(t, v) for (_, t), v in zip(sp.params, pv)])
+
+            def run_function(pv, bv):
+                roots = {}
+                seed_param_roots(sp, pv, roots)
+                if sp.binds or sp.opaque:
+                    me = make_self(sp, None, bv, roots)
+                    install_stubs(sp, me, roots)
+                g = fn
+                extra_globals = {k: v for k, v in roots.items() if k not in [pn for pn, _ in sp.params]}
+                if extra_globals and isinstance(fn, types.FunctionType):
+                    # module-level names the spec declares opaque / binds: the same code with those globals replaced
+                    g = types.FunctionType(fn.__code__, dict(fn.__globals__, **extra_globals), fn.__name__,
+                                           fn.__defaults__, fn.__closure__)
+                    g.__kwdefaults__ = fn.__kwdefaults__
+                return g(*param_values(sp, pv, roots))
+            return run_function
         if isinstance(raw, property):
             def run_getter(pv, bv):
                 me = make_self(sp, cls, bv)
@@ -419,8 +456,9 @@ def _real_callable(sp, mod, path):
         if isinstance(raw, classmethod):
             return lambda pv, bv: raw.__func__(cls, *[py_value(t, v) for (_, t), v in zip(sp.params, pv)])
         def run_method(pv, bv):
-            me = make_self(sp, cls, bv)
             roots = {}
+            seed_param_roots(sp, pv, roots)
+            me = make_self(sp, cls, bv, roots)
             install_stubs(sp, me, roots)
             fn = raw
             if "super" in roots and isinstance(raw, types.FunctionType):
@@ -428,7 +466,7 @@ def _real_callable(sp, mod, path):
                 fn = types.FunctionType(raw.__code__, dict(raw.__globals__, super=roots["super"]), raw.__name__,
                                         raw.__defaults__, raw.__closure__)
                 fn.__kwdefaults__ = raw.__kwdefaults__
-            return fn(me, *[py_value(t, v) for (_, t), v in zip(sp.params, pv)])
+            return fn(me, *param_values(sp, pv, roots))
         return run_method
     # a slice of the method: compile exactly those statements in the namespace of the real module
     tree = ast.parse(open(path).read())
@@ -504,6 +542,7 @@ def _real_callable(sp, mod, path):
 
     def run(pv, bv):
         roots = {}
+        seed_param_roots(sp, pv, roots)
         me = make_self(sp, cls, bv, roots)
         install_stubs(sp, me, roots)
         for text in sp.stores:                   # stored attributes of objects other than self: a fresh stand-in
@@ -527,7 +566,7 @@ def _real_callable(sp, mod, path):
         for r, o in roots.items():
             ns[r] = o
         extra = [py_value(ty, v) for (src, pname, ty), v in zip(sp.binds, bv) if odd_bind(sp, src)]
-        return f(me, *([py_value(t, v) for (_, t), v in zip(sp.params, pv)] + extra))
+        return f(me, *(param_values(sp, pv, roots) + extra))
     return run
 
 
